@@ -225,12 +225,23 @@ def cross_process(bs: List[Fields], d: str) -> Tuple[List[Dict[str, Any]], int]:
     return problems, len(outs[0])
 
 
+def _hex(v):
+    try:
+        return int(str(v), 16)
+    except ValueError:
+        return None
+
+
 def cross_language(bs: List[Fields], d: str) -> Tuple[List[Dict[str, Any]], Dict[str, int]]:
     """one packed program through all four back ends (+ the parser)"""
     problems = []
     msgs = {}
     for bi, f in enumerate(bs):
         msgs.update(msg_section(f"BASE{bi}", 3000 + bi, f))
+    # names of 47 / 48 / 49 / 60 characters (fixed-width formatting in the emitters)
+    for L in (47, 48, 49, 60):
+        nm = ("LONG_NAME_" + "X" * 80)[:L]
+        msgs[nm] = {"id": 3800 + L, "fields": {"a": "int32"} if L % 2 else None}
     prog = defx.Program({"root.yaml": {"struct_defs": STRUCTS, "message_defs": msgs}})
     paths = defx.compile_program(prog, d, name="hashes")
     p = defx.parse_model(paths["root"])
@@ -241,7 +252,7 @@ def cross_language(bs: List[Fields], d: str) -> Tuple[List[Dict[str, Any]], Dict
     ml = defx.run_matlab(paths["matlab"])
     got = {
         "python": {n: dd["hash"] for n, dd in py["defs"].items() if dd["msg"]},
-        "c": {k[5:]: int(v, 16) for k, v in c["defines"].items() if k.startswith("HASH_")},
+        "c": {k[5:]: _hex(v) for k, v in c["defines"].items() if k.startswith("HASH_")},
         "js": {k: int(v, 16) for k, v in (js.get("HASH") or {}).items()},
         "matlab": {k: int(v, 16) for k, v in (ml["RTMA"].get("hash") or {}).items() if isinstance(v, str)},
     }
@@ -253,7 +264,8 @@ def cross_language(bs: List[Fields], d: str) -> Tuple[List[Dict[str, Any]], Dict
             key = name.lstrip("_0123456789") if lang == "matlab" else name
             n += 1
             if table.get(key) != h:
-                problems.append({"kind": "hash-differs-between-outputs", "lang": lang, "message": name, "parser": hex(h), "got": hex(table[key]) if key in table else None})
+                problems.append({"kind": "hash-differs-between-outputs", "lang": lang, "message": name, "parser": hex(h),
+                                     "got": hex(table[key]) if table.get(key) is not None else None})
     return problems, {"hash_comparisons": n, "messages": len(want), "pyfile": paths["python"]}
 
 
@@ -286,6 +298,16 @@ def wire_versions(pyfile: str) -> Tuple[List[Dict[str, Any]], int]:
                 f = frames[0]
                 if f.h[11] != cls.type_hash or f.msg_type != cls.type_id:
                     problems.append({"kind": "wire-version", "cls": cls.__name__, "sent": hex(f.h[11]), "type_hash": hex(cls.type_hash)})
+                # a signal sent right after it (no class at hand): the version is either left unfilled (0) or that definition's
+                # own hash - never something left over from the previous message
+                if n % 7 == 0:
+                    other = classes[(n * 5 + 3) % len(classes)]
+                    sp.peer.rx.clear()
+                    sp.client.send_signal(other.type_id)
+                    fr2, _r, _p = P.parse_stream(bytes(sp.peer.rx), tc)
+                    if len(fr2) != 1 or fr2[0].h[11] not in (0, other.type_hash):
+                        problems.append({"kind": "wire-version-signal", "after": cls.__name__, "signal": other.__name__,
+                                         "sent": hex(fr2[0].h[11]) if fr2 else None, "allowed": [hex(0), hex(other.type_hash)]})
         finally:
             sp.close()
     return problems, n
